@@ -1,7 +1,7 @@
 (* C06 — Every valid RFC 9535 query is accepted by the parser.  Statements only.
    The whole-language statement is kept visible and is NOT proved (partial): *)
 From Coq Require Import List NArith ZArith Bool.
-From JP Require Import Base Ast Peg Dec2Bin Known Build Concrete BuildFacts NormPath Reference NpParse NpBuild FragParse FragBuild FragWs FragWsBuild GenParse GenBuild FilterParse FilterBuild FilterFacts.
+From JP Require Import Base Ast Peg Dec2Bin Known Build Concrete BuildFacts NormPath Reference NpParse NpBuild FragParse FragBuild FragWs FragWsBuild GenParse GenBuild FilterParse FilterBuild FilterFacts StrParse StrBuild.
 From JP.gen Require Import Grammar.
 Import ListNotations.
 
@@ -138,6 +138,37 @@ Example C06_with_functions_example :
   /\ parse_query (36%N :: gsegs_text (SelT 1) (stextT 1) ex_q2)
      = POk (segments_of_list (map (gseg_ast (SelT 1) (sastT 1)) ex_q2)).
 Proof. vm_compute. split; reflexivity. Qed.
+
+(* proved part, whole pipeline: the STRING sublanguage in full.  A string body is a list of items (StrParse.sitem):
+   an unescaped character (the five ranges of the RFC), the other quote character as it is, the own quote escaped,
+   \b \f \n \r \t \/ \\, \uXXXX for every non-surrogate (first hex digit not D/d, or D/d followed by 0-7; hex digits
+   in upper or lower case), and surrogate pairs \uD8..-\uDB.. \uDC..-\uDF..; in single or double quotes.  For EVERY
+   such string, of any length, the generated grammar and parser.rs accept it as a name selector and as a comparison
+   literal and read it as itself (parser.rs keeps the raw spelling of a name and the raw body of a literal) *)
+Theorem C06_every_string_as_name_partial : forall dq its,
+  Forall item_ok its ->
+  parse_query (36%N :: 91%N :: string_text dq its ++ [93%N])
+  = POk (GCons (SegSel (SelName (string_text dq its))) GNil).
+Proof. exact string_name_selector_accepted. Qed.
+Print Assumptions C06_every_string_as_name_partial.
+
+Theorem C06_every_string_as_literal_partial : forall dq its,
+  Forall item_ok its ->
+  parse_query ([36; 91; 63; 64; 61; 61]%N ++ string_text dq its ++ [93%N])
+  = POk (GCons (SegSel (SelFilter (FAtom (ACmp OpEq (CSq (SqCur [])) (CLit (LStr (body_text dq its))))))) GNil).
+Proof. exact string_literal_accepted. Qed.
+Print Assumptions C06_every_string_as_literal_partial.
+
+(* "\uD83D\uDe00 \u00E9 it's \"x\" \\ \/ \n" in double quotes: a surrogate pair with mixed-case hex, a BMP escape, the
+   other quote, the own quote escaped, backslash, solidus, newline escape *)
+Example C06_string_example :
+  let its := [IUPair 68 56 51 68 68 101 48 48; IPlain 32; IU 48 48 69 57; IPlain 32; IPlain 105; IPlain 116; IOther; IPlain 115;
+              IPlain 32; IEscQ; IPlain 120; IEscQ; IPlain 32; IEsc 92; IPlain 32; IEsc 47; IPlain 32; IEsc 110]%N in
+  Forall item_ok its
+  /\ string_text true its
+     = [34; 92;117;68;56;51;68; 92;117;68;101;48;48; 32; 92;117;48;48;69;57; 32; 105;116;39;115; 32; 92;34;120;92;34; 32; 92;92; 32; 92;47; 32; 92;110; 34]%N
+  /\ parse_query (36%N :: 91%N :: string_text true its ++ [93%N]) = POk (GCons (SegSel (SelName (string_text true its))) GNil).
+Proof. split; [repeat constructor|]. vm_compute. split; reflexivity. Qed.
 
 (* the parser model, over the grammar generated from the .pest file of this run, accepts the
    RFC's own examples and builds the reference AST (evaluated inside Coq: a test, not the
